@@ -157,7 +157,7 @@ def ShapeOK (l : Line) (o : Option Response) : Prop :=
   match l with
   | .blank => o = none
   | .unparsable =>
-    ∃ e, o = some { result := none, error := some e, id := .null } ∧ e.code = -32700
+    ∃ e, o = some { jsonrpc := "2.0", result := none, error := some e, id := .null } ∧ e.code = -32700
   | .request r =>
     match r.id with
     | some i => ∃ resp, o = some resp ∧ resp.id = i ∧ ExactlyOne resp
@@ -648,5 +648,79 @@ theorem Conc.init_inv (c : Config) (h : InRange c.timeout) : (Conc.init c).Inv :
     exact h
   · intro t p hp
     simp [Conc.init] at hp
+
+end Srtla.Control
+
+namespace Srtla.Control
+open Srtla.Gen
+
+/-! ## Round 2: the `jsonrpc` member of every response -/
+
+theorem Response.ok_jsonrpc (i v : Json) : (Response.ok i v).jsonrpc = "2.0" := rfl
+theorem Response.err_jsonrpc (i : Json) (e : ErrObj) : (Response.err i e).jsonrpc = "2.0" := rfl
+
+theorem finish_jsonrpc (id : Option Json) (res : Except ErrObj Json) (resp : Response)
+    (h : finish id res = some resp) : resp.jsonrpc = "2.0" := by
+  cases id with
+  | none => cases h
+  | some i =>
+    cases res with
+    | ok v => simp only [finish, Option.some.injEq] at h; rw [← h]; rfl
+    | error e => simp only [finish, Option.some.injEq] at h; rw [← h]; rfl
+
+theorem map_versionError_jsonrpc (id : Option Json) (resp : Response)
+    (h : id.map versionError = some resp) : resp.jsonrpc = "2.0" := by
+  cases id with
+  | none => cases h
+  | some i => simp only [Option.map_some, Option.some.injEq] at h; rw [← h]; rfl
+
+theorem dispatchInner_jsonrpc (env : Env) (c : Config) (l : Line) (resp : Response)
+    (h : (dispatchInner env c l).2 = some resp) : resp.jsonrpc = "2.0" := by
+  cases l with
+  | blank => cases h
+  | unparsable => simp only [dispatchInner, Option.some.injEq] at h; rw [← h]; rfl
+  | request r =>
+    unfold dispatchInner at h
+    by_cases hv : r.jsonrpc = Control.JSONRPC_VERSION
+    · simp only [hv, ne_eq, not_true_eq_false, if_false] at h
+      exact finish_jsonrpc _ _ _ h
+    · simp only [hv, ne_eq, not_false_eq_true, if_true] at h
+      exact map_versionError_jsonrpc _ _ h
+
+theorem dispatchAsync_jsonrpc (env : Env) (c : Config) (ctx : Option Ctx) (l : Line) (resp : Response)
+    (h : (dispatchAsync env c ctx l).2.2 = some resp) : resp.jsonrpc = "2.0" := by
+  cases l with
+  | blank => cases h
+  | unparsable => simp only [dispatchAsync, Option.some.injEq] at h; rw [← h]; rfl
+  | request r =>
+    by_cases hv : r.jsonrpc = Control.JSONRPC_VERSION
+    · obtain ⟨res, hres⟩ := async_resp_finish env c ctx r hv
+      rw [hres] at h
+      exact finish_jsonrpc _ _ _ h
+    · unfold dispatchAsync at h
+      simp only [hv, ne_eq, not_false_eq_true, if_true] at h
+      exact map_versionError_jsonrpc _ _ h
+
+theorem runSync_jsonrpc (c : Config) (ls : List (Env × Line)) (resp : Response)
+    (h : some resp ∈ (runSync c ls).2) : resp.jsonrpc = "2.0" := by
+  induction ls generalizing c with
+  | nil => simp [runSync] at h
+  | cons el rest ih =>
+    obtain ⟨env, l⟩ := el
+    simp only [runSync, List.mem_cons] at h
+    rcases h with h | h
+    · exact dispatchInner_jsonrpc env c l resp h.symm
+    · exact ih _ h
+
+theorem runAsync_jsonrpc (c : Config) (ctx : Option Ctx) (ls : List (Env × Line)) (resp : Response)
+    (h : some resp ∈ (runAsync c ctx ls).2.2) : resp.jsonrpc = "2.0" := by
+  induction ls generalizing c ctx with
+  | nil => simp [runAsync] at h
+  | cons el rest ih =>
+    obtain ⟨env, l⟩ := el
+    simp only [runAsync, List.mem_cons] at h
+    rcases h with h | h
+    · exact dispatchAsync_jsonrpc env c ctx l resp h.symm
+    · exact ih _ _ h
 
 end Srtla.Control
